@@ -244,7 +244,7 @@ PROPS["C10"] = dict(
     targets=[dict(name="c10_rsa", src="c10_rsa.cpp", flavour="san", libs=["-lcrypto", "-lgmp"])],
     quick=[("c10_rsa", "rc", dict(cases=6400, shards=16))],
     thorough=[("c10_rsa", "rc", dict(cases=240000, shards=16))],
-    floor=dict(quick=1500, thorough=20000),
+    floor=dict(quick=1500, thorough=6000),
 )
 
 PROPS["C11"] = dict(
